@@ -53,9 +53,21 @@ var skelTargets = []skelTarget{
 	{"handler_ServeHTTPBuffered", "C11", "handler.go", "ComponentHandler", "ServeHTTPBuffered"},
 	{"handler_ServeHTTP", "C11", "handler.go", "ComponentHandler", "ServeHTTP"},
 	{"url_URL", "C04", "url.go", "", "URL"},
+	{"lspserver_DidChange", "C07", "cmd/templ/lspcmd/proxy/server.go", "Server", "DidChange"},
+	{"lspserver_DidOpen", "C07", "cmd/templ/lspcmd/proxy/server.go", "Server", "DidOpen"},
+	{"lspserver_parseTemplate", "C07", "cmd/templ/lspcmd/proxy/server.go", "Server", "parseTemplate"},
 	{"runtime_EscapeString", "C01", "runtime.go", "", "EscapeString"},
 	{"runtime_RenderAttributes", "C01", "runtime.go", "", "RenderAttributes"},
 	{"runtime_SanitizeCSS", "C05", "runtime.go", "", "SanitizeCSS"},
+	{"safehtml_SanitizeCSS", "C05", "safehtml/style.go", "", "SanitizeCSS"},
+	{"safehtml_SanitizeCSSValue", "C05", "safehtml/style.go", "", "SanitizeCSSValue"},
+	{"safehtml_SanitizeCSSProperty", "C05", "safehtml/style.go", "", "SanitizeCSSProperty"},
+	{"safehtml_sanitizeRegular", "C05", "safehtml/style.go", "", "sanitizeRegular"},
+	{"safehtml_sanitizeBackgroundImage", "C05", "safehtml/style.go", "", "sanitizeBackgroundImage"},
+	{"safehtml_sanitizeFontFamily", "C05", "safehtml/style.go", "", "sanitizeFontFamily"},
+	{"safehtml_sanitizeEnum", "C05", "safehtml/style.go", "", "sanitizeEnum"},
+	{"safehtml_urlIsSafe", "C05", "safehtml/style.go", "", "urlIsSafe"},
+	{"styleattr_sanitizeStyleAttributeValue", "C05", "runtime/styleattribute.go", "", "sanitizeStyleAttributeValue"},
 	{"once_Once", "C12", "once.go", "OnceHandle", "Once"},
 	{"css_renderCSSItemsToBuilder", "C12", "runtime.go", "", "renderCSSItemsToBuilder"},
 	{"script_RenderScriptItems", "C12", "scripttemplate.go", "", "RenderScriptItems"},
